@@ -3,6 +3,8 @@
 # universe (/tmp/alt: a worktree of /repo HEAD + a copy of /verif whose harness points at it), so that
 # /repo and /verif stay untouched.  Prints one line per seeded change; "LOST" = no longer detected.
 export GOFLAGS=-mod=mod GOPROXY=off GOSUMDB=off GOTOOLCHAIN=local
+# a build cache of its own: this script empties it from time to time, which must not disturb other builds
+export GOCACHE=${GOCACHE_REGRESS:-/root/.cache/go-build-regress}
 ALT=${ALT:-/tmp/alt}
 rm -rf $ALT; mkdir -p $ALT
 git -C /repo worktree prune
@@ -27,5 +29,5 @@ for d in /verif/seeded/C*-[A-Z]; do
   fi
   git -C $ALT/repo reset -q; git -C $ALT/repo checkout -- .
 done
-git -C /repo worktree remove --force $ALT/repo; rm -rf $ALT
+git -C /repo worktree remove --force $ALT/repo; rm -rf $ALT; go clean -cache
 echo DONE
